@@ -269,7 +269,8 @@ Definition PInv (st : state) (done todo : list tr_entry) : Prop :=
   (forall e, In e todo -> lookup (st_fs st) (leaf_of e) = None) /\
   (tc_overwrite c = false -> tr_json c = true ->
      (forall e, In e done -> map_get (st_map st) (te_id e) = Some (tr_key c e)) /\
-     (forall id v, map_get (st_map st) id = Some v -> exists e, In e done /\ te_id e = id)).
+     (forall id v, map_get (st_map st) id = Some v -> exists e, In e done /\ te_id e = id)) /\
+  (forall q, q <> [] -> (forall e, In e done -> q <> leaf_of e) -> lookup (st_fs st) q = lookup f0 q).
 
 Lemma leaf_not_nil e : leaf_of e <> [].
 Proof. unfold tr_leaf_of. destruct d; discriminate. Qed.
@@ -293,7 +294,7 @@ Qed.
 Lemma progress_step es st done e todo : tr_ready' es -> es = done ++ e :: todo -> PInv st done (e :: todo) ->
   exists st', tr_spec_entry c d e st = Some (tr_key c e, st') /\ PInv st' (done ++ [e]) todo.
 Proof.
-  intros (Hclean & Hdist & Hpar & Hids & _) Hes (Hc & Hdirs & Habs & Hmap).
+  intros (Hclean & Hdist & Hpar & Hids & _) Hes (Hc & Hdirs & Habs & Hmap & Hframe).
   assert (Hin : In e es) by (rewrite Hes; apply in_or_app; right; left; reflexivity).
   assert (Hce : entry_clean e) by (rewrite Forall_forall in Hclean; apply Hclean, Hin).
   pose proof Hce as (Hfine & Hrel & Hdj).
@@ -329,7 +330,7 @@ Proof.
     { intros e' Hin' Heq. unfold tr_leaf_of in Heq. apply app_inv_head in Heq.
       rewrite Hes, map_app in Hdist. cbn [map] in Hdist. apply NoDup_remove_2 in Hdist. apply Hdist.
       rewrite <- Heq. apply in_or_app. destruct Hin' as [Hi|Hi]; [left | right]; apply in_map_iff; exists e'; auto. }
-    unfold PInv. split; [|split; [|split]].
+    unfold PInv. split; [|split; [|split; [|split]]].
     + apply (chain_frame_eq _ _ _ Hc). intros a b Hab Ha. apply Hfr; [exact Ha|].
       intro Heq. apply (f_equal (@length name)) in Heq. unfold tr_leaf_of in Heq. rewrite Hab, !app_length in Heq. cbn in Heq. lia.
     + intros e' Hin' Hd'. apply in_app_or in Hin' as [Hin'|[<-|[]]].
@@ -357,26 +358,32 @@ Proof.
         -- intros id v. cbn [map_get]. destruct (Z.eqb (te_id e) id) eqn:Ez.
            ++ intros _. apply Z.eqb_eq in Ez. exists e. split; [apply in_or_app; right; left; reflexivity | exact Ez].
            ++ intro Hv. destruct (Hm2 _ _ Hv) as (e' & Hi & He). exists e'. split; [apply in_or_app; left; exact Hi | exact He].
+    + intros q Hq Hnl. rewrite Hfr; [apply Hframe; [exact Hq|] | exact Hq | apply Hnl; apply in_or_app; right; left; reflexivity].
+      intros e' Hi. apply Hnl. apply in_or_app; left; exact Hi.
 Qed.
 
 Lemma progress_all es : tr_ready' es -> forall todo done st names, es = done ++ todo -> PInv st done todo ->
-  exists all stf, tr_spec c d todo st names = Some (map (tr_key c) todo, all, stf).
+  exists all stf, tr_spec c d todo st names = Some (map (tr_key c) todo, all, stf) /\ PInv stf es [].
 Proof.
   intro Hr. induction todo as [|e todo IH]; intros done st names Hes HI.
-  - cbn. eauto.
+  - cbn. rewrite app_nil_r in Hes. subst done. eauto.
   - destruct (progress_step es st done e todo Hr Hes HI) as (st' & Es & HI').
     cbn [tr_spec map]. rewrite Es.
-    destruct (IH (done ++ [e]) st' (tr_add_name names (tr_key c e))) as (all & stf & E); [rewrite <- app_assoc; exact Hes | exact HI'|].
+    destruct (IH (done ++ [e]) st' (tr_add_name names (tr_key c e))) as (all & stf & E & HF); [rewrite <- app_assoc; exact Hes | exact HI'|].
     rewrite E. eauto.
 Qed.
 
+(* accepted, and nothing but the entries' own places has changed *)
 Theorem ready_accepts es : stat f0 d = SFound Dir -> tr_ready' es ->
-  exists all stf, tr_spec c d es (init_state f0) [] = Some (map (tr_key c) es, all, stf).
+  exists all stf, tr_spec c d es (init_state f0) [] = Some (map (tr_key c) es, all, stf) /\
+    forall q, q <> [] -> (forall e, In e es -> q <> leaf_of e) -> lookup (st_fs stf) q = lookup f0 q.
 Proof.
-  intros Hd Hr. apply (progress_all es Hr es [] (init_state f0) [] eq_refl).
-  destruct Hr as (_ & _ & _ & _ & Habs). unfold PInv. cbn [init_state st_fs st_map].
-  split; [apply stat_dir_chain, Hd|]. split; [intros e Hf; destruct Hf|]. split; [exact Habs|].
-  intros _ _. split; [intros e Hf; destruct Hf | intros id v Hv; discriminate Hv].
+  intros Hd Hr.
+  destruct (progress_all es Hr es [] (init_state f0) [] eq_refl) as (all & stf & E & HF).
+  - destruct Hr as (_ & _ & _ & _ & Habs). unfold PInv. cbn [init_state st_fs st_map].
+    split; [apply stat_dir_chain, Hd|]. split; [intros e Hf; destruct Hf|]. split; [exact Habs|].
+    split; [|reflexivity]. intros _ _. split; [intros e Hf; destruct Hf | intros id v Hv; discriminate Hv].
+  - exists all, stf. split; [exact E|]. destruct HF as (_ & _ & _ & _ & F). exact F.
 Qed.
 
 Lemma nodup_map_coarser {A B C} (f : A -> B) (g : A -> C) (l : list A) :
